@@ -2,6 +2,8 @@
 
 package wsutil
 
+import "io"
+
 // C02_stream_step (inductive step): CipherReader/CipherWriter from an arbitrary running
 // position apply the §5.3 XOR at positions pos..pos+n-1 and advance pos by the bytes moved;
 // an arbitrary chunking is a sequence of such steps.
@@ -16,7 +18,29 @@ func C02_stream_step() {
 	n := vChoose("n", maxN+1)
 	data := vBytes("d", n)
 	pm := uint64(pos) % 4
-	if vChoose("dir", 2) == 0 {
+	dir := vChoose("dir", 3)
+	if dir == 2 {
+		// the rest of a payload drained with io.Copy (which uses a WriterTo / ReaderFrom short-cut
+		// of either end when there is one) from a reader that is already at position pos
+		if n > 6 {
+			vAssume(false)
+		}
+		src := vNewSrc(append([]byte{}, data...), vChoose("mode", 2), "chunk")
+		cr := NewCipherReader(&src, [4]byte{})
+		cr.Reset(&src, key)
+		cr.pos = pos
+		out := &vDst{failAt: -1}
+		m, err := io.Copy(out, cr)
+		vAssert(vAnd(err == nil, int(m) == n), "stream.copy_moves_everything")
+		ok := len(out.all) == n
+		for i := 0; i < len(out.all) && i < n; i++ {
+			ok = vAnd(ok, out.all[i] == data[i]^key[(pm+uint64(i%4))%4])
+		}
+		vAssert(ok, "stream.copy_xor_continues_at_the_running_position")
+		vAssert(cr.pos == pos+n, "stream.copy_pos_advances")
+		return
+	}
+	if dir == 0 {
 		src := &vChunkSrc{data: data, withErr: vChoose("srcerr", 3)}
 		cr := NewCipherReader(src, [4]byte{})
 		cr.Reset(src, key)
